@@ -92,3 +92,12 @@ func Verif_C05_T2_HierFindMissingTwoObjects() { verifScenarioHierFindMissingTwo(
 // check completes: an object that vanished between the scan and the refresh pass (rotated
 // out by the refresh of another object of the same request) is reported missing.
 func Verif_C05_T3_FlatFindMissingOutcomes() { verifScenarioFlatFindMissing() }
+
+// T4/T5: a refresh is only worth something if the copy it made stays reachable. The copy's
+// index entry carries what the put finalizers report: (T4) the persistent block list's
+// finalizer leaves the blob in an epoch whose last block is at or after the blob's block
+// (otherwise the entry's reference does not resolve and the object is gone at the next
+// read); (T5) the location map's finalizer reports the very block the bytes went to,
+// whatever rotations happened during the copy.
+func Verif_C05_T4_RefreshedCopyResolves()  { verifScenarioPBLFinalizer() }
+func Verif_C05_T5_FinalizerUnderRotation() { verifScenarioFinalizerUnderRotation() }
